@@ -577,7 +577,7 @@ Lemma read_code_at_len tb ps s p r :
 Proof.
   unfold read_code_at. intros H.
   destruct (tsearch 33 tb ps 0 s) as [q|k|]; cbn [bind] in H; try discriminate.
-  destruct (Nat.leb (length (p_code q)) (length s)); [|discriminate].
+  destruct (Nat.leb (length (p_code q)) _); [|discriminate].
   inversion H; subst; clear H. rewrite skipn_length. lia.
 Qed.
 
